@@ -77,6 +77,7 @@ type c11Op struct {
 }
 
 type c11Input struct {
+	Mode  string  `json:"mode,omitempty"` // "" (message level) | "tx" (handled by TestC11Tx)
 	VP0   uint64  `json:"vp0"`
 	NVals int     `json:"nvals"`
 	Ops   []c11Op `json:"ops"`
@@ -91,15 +92,15 @@ type c11Obs struct {
 	VP     uint64     `json:"vp"`
 	Status []int      `json:"status"` // per address id: 0 no validator, 1 not bonded, 2 bonded
 	// reference values computed by the harness for this op (inputs of the model)
-	HashID   int  `json:"hash_id"`
-	HexOK    bool `json:"hex_ok"`
-	SaltID   int  `json:"salt_id"`
-	RatesID  int  `json:"rates_id"`
-	TuplesID int  `json:"tuples_id"`
-	Parses   bool `json:"parses"`
-	WL       bool `json:"wl"`
-	RevealID int  `json:"reveal_id"` // id of the reference hash of (salt, rates, validator)
-	SignerOK bool `json:"signer_ok"` // msg.GetSigners() == the feeder / operator field
+	HashID   int    `json:"hash_id"`
+	HexOK    bool   `json:"hex_ok"`
+	SaltID   int    `json:"salt_id"`
+	RatesID  int    `json:"rates_id"`
+	TuplesID int    `json:"tuples_id"`
+	Parses   bool   `json:"parses"`
+	WL       bool   `json:"wl"`
+	RevealID int    `json:"reveal_id"` // id of the reference hash of (salt, rates, validator)
+	SignerOK bool   `json:"signer_ok"` // msg.GetSigners() == the feeder / operator field
 	Panic    string `json:"panic,omitempty"`
 }
 
@@ -286,6 +287,61 @@ func (w *c11World) bech(i int, val bool) string {
 	return a.String()
 }
 
+// oracleMsg builds the oracle message of a prevote / vote / delegate op and fills in the reference
+// values the model needs (hash ids, parse / whitelist flags), all computed before delivery.
+func (w *c11World) oracleMsg(ctx sdk.Context, op c11Op, o *c11Obs) sdk.Msg {
+	switch op.Kind {
+	case "prevote":
+		var h string
+		val := sdk.ValAddress(w.acc[op.HashFor%c11NAddr])
+		switch op.HashMode {
+		case "honest":
+			h = refHash(op.Salt, op.Rates, val)
+		case "upper":
+			h = strings.ToUpper(refHash(op.Salt, op.Rates, val))
+		case "noval":
+			sum := sha256.Sum256([]byte(op.Salt + ":" + op.Rates))
+			h = hex.EncodeToString(sum[:20])
+		default:
+			h = op.Lit
+		}
+		if bz, e := hex.DecodeString(h); e == nil {
+			o.HexOK = true
+			o.HashID = w.id(w.ids, hex.EncodeToString(bz))
+		}
+		msg := &otypes.MsgAggregateExchangeRatePrevote{Hash: h, Feeder: w.bech(op.Feeder, false), Validator: w.bech(op.Val, true)}
+		o.SignerOK = len(msg.GetSigners()) == 1 && msg.GetSigners()[0].Equals(w.acc[op.Feeder%c11NAddr])
+		return msg
+	case "vote":
+		val := sdk.ValAddress(w.acc[op.Val%c11NAddr])
+		o.SaltID = w.id(w.salts, op.Salt)
+		o.RatesID = w.id(w.rates, op.Rates)
+		o.RevealID = w.id(w.ids, refHash(op.Salt, op.Rates, val))
+		if tuples, e := otypes.ParseExchangeRateTuples(op.Rates); e == nil {
+			o.Parses = true
+			s, e2 := tuples.ToString()
+			if e2 != nil {
+				s = "!" + e2.Error()
+			}
+			o.TuplesID = w.id(w.tuples, s)
+			o.WL = true
+			for _, tp := range tuples {
+				if !w.app.OracleKeeper.WhitelistedPairs.Has(ctx, tp.Pair) {
+					o.WL = false
+				}
+			}
+		}
+		msg := &otypes.MsgAggregateExchangeRateVote{Salt: op.Salt, ExchangeRates: op.Rates, Feeder: w.bech(op.Feeder, false), Validator: w.bech(op.Val, true)}
+		o.SignerOK = len(msg.GetSigners()) == 1 && msg.GetSigners()[0].Equals(w.acc[op.Feeder%c11NAddr])
+		return msg
+	case "delegate":
+		msg := &otypes.MsgDelegateFeedConsent{Operator: w.bech(op.Val, true), Delegate: w.bech(op.Delegate, false)}
+		o.SignerOK = len(msg.GetSigners()) == 1 && msg.GetSigners()[0].Equals(w.acc[op.Val%c11NAddr])
+		return msg
+	}
+	return nil
+}
+
 func (w *c11World) apply(op c11Op) c11Obs {
 	ctx := w.ctx.WithBlockHeight(op.H)
 	o := c11Obs{SignerOK: true}
@@ -293,52 +349,11 @@ func (w *c11World) apply(op c11Op) c11Obs {
 	pan := Recover(func() {
 		switch op.Kind {
 		case "prevote":
-			var h string
-			val := sdk.ValAddress(w.acc[op.HashFor%c11NAddr])
-			switch op.HashMode {
-			case "honest":
-				h = refHash(op.Salt, op.Rates, val)
-			case "upper":
-				h = strings.ToUpper(refHash(op.Salt, op.Rates, val))
-			case "noval":
-				sum := sha256.Sum256([]byte(op.Salt + ":" + op.Rates))
-				h = hex.EncodeToString(sum[:20])
-			default:
-				h = op.Lit
-			}
-			if bz, e := hex.DecodeString(h); e == nil {
-				o.HexOK = true
-				o.HashID = w.id(w.ids, hex.EncodeToString(bz))
-			}
-			msg := &otypes.MsgAggregateExchangeRatePrevote{Hash: h, Feeder: w.bech(op.Feeder, false), Validator: w.bech(op.Val, true)}
-			o.SignerOK = len(msg.GetSigners()) == 1 && msg.GetSigners()[0].Equals(w.acc[op.Feeder%c11NAddr])
-			_, err = w.ms.AggregateExchangeRatePrevote(sdk.WrapSDKContext(ctx), msg)
+			_, err = w.ms.AggregateExchangeRatePrevote(sdk.WrapSDKContext(ctx), w.oracleMsg(ctx, op, &o).(*otypes.MsgAggregateExchangeRatePrevote))
 		case "vote":
-			val := sdk.ValAddress(w.acc[op.Val%c11NAddr])
-			o.SaltID = w.id(w.salts, op.Salt)
-			o.RatesID = w.id(w.rates, op.Rates)
-			o.RevealID = w.id(w.ids, refHash(op.Salt, op.Rates, val))
-			if tuples, e := otypes.ParseExchangeRateTuples(op.Rates); e == nil {
-				o.Parses = true
-				s, e2 := tuples.ToString()
-				if e2 != nil {
-					s = "!" + e2.Error()
-				}
-				o.TuplesID = w.id(w.tuples, s)
-				o.WL = true
-				for _, tp := range tuples {
-					if !w.app.OracleKeeper.WhitelistedPairs.Has(ctx, tp.Pair) {
-						o.WL = false
-					}
-				}
-			}
-			msg := &otypes.MsgAggregateExchangeRateVote{Salt: op.Salt, ExchangeRates: op.Rates, Feeder: w.bech(op.Feeder, false), Validator: w.bech(op.Val, true)}
-			o.SignerOK = len(msg.GetSigners()) == 1 && msg.GetSigners()[0].Equals(w.acc[op.Feeder%c11NAddr])
-			_, err = w.ms.AggregateExchangeRateVote(sdk.WrapSDKContext(ctx), msg)
+			_, err = w.ms.AggregateExchangeRateVote(sdk.WrapSDKContext(ctx), w.oracleMsg(ctx, op, &o).(*otypes.MsgAggregateExchangeRateVote))
 		case "delegate":
-			msg := &otypes.MsgDelegateFeedConsent{Operator: w.bech(op.Val, true), Delegate: w.bech(op.Delegate, false)}
-			o.SignerOK = len(msg.GetSigners()) == 1 && msg.GetSigners()[0].Equals(w.acc[op.Val%c11NAddr])
-			_, err = w.ms.DelegateFeedConsent(sdk.WrapSDKContext(ctx), msg)
+			_, err = w.ms.DelegateFeedConsent(sdk.WrapSDKContext(ctx), w.oracleMsg(ctx, op, &o).(*otypes.MsgDelegateFeedConsent))
 		case "edit":
 			sender := w.acc[7]
 			if op.Sudo {
@@ -418,14 +433,14 @@ var c11RatesVariant = []string{
 }
 
 var c11RatesOdd = []string{
-	"(ufoo:ubar,1.5)",                  // parses, not whitelisted
-	"(ubtc:uusd,1.5)|(ufoo:ubar,2)",    // one pair not whitelisted
-	"ubtc:uusd,1.5",                    // no parentheses
-	"(ubtc:uusd,1.5)|",                 // trailing separator
-	"(ubtc:uusd,1)|(ubtc:uusd,2)",      // duplicate pair
-	"",                                 // empty
-	"(ubtc:uusd,1.5,2)",                // three fields
-	"(ubtc,1.5)",                       // not a pair
+	"(ufoo:ubar,1.5)",               // parses, not whitelisted
+	"(ubtc:uusd,1.5)|(ufoo:ubar,2)", // one pair not whitelisted
+	"ubtc:uusd,1.5",                 // no parentheses
+	"(ubtc:uusd,1.5)|",              // trailing separator
+	"(ubtc:uusd,1)|(ubtc:uusd,2)",   // duplicate pair
+	"",                              // empty
+	"(ubtc:uusd,1.5,2)",             // three fields
+	"(ubtc,1.5)",                    // not a pair
 }
 
 var c11Salts = []string{"1", "ab", "7f3", "1:2", "zzzz", ""}
@@ -683,6 +698,9 @@ func TestC11(t *testing.T) {
 			var in c11Input
 			if err := json.Unmarshal(raw, &in); err != nil {
 				t.Fatal(err)
+			}
+			if in.Mode == "tx" {
+				continue // TestC11Tx replays it
 			}
 			run(in)
 		}
